@@ -233,7 +233,8 @@ def generate(tier, rng):
         n += 1
         if not thorough and n % 3 and data not in (ABSENT, None):
             continue
-        body = err_body(cls=rng.choice(['JsonRpcError', 'UserError2001', 'MethodNotFoundError', 'UserErrorZero']), code=code, message=msg, data=data)
+        body = err_body(cls=rng.choice(['JsonRpcError', 'UserError2001', 'MethodNotFoundError', 'UserErrorZero', 'ServerError', 'InternalError',
+                                        'InvalidRequestError']), code=code, message=msg, data=data)
         c = cfg(methods=std_methods(fail_rpc=body))
         for text in (json.dumps({'jsonrpc': '2.0', 'method': 'fail_rpc', 'id': 3}),
                      json.dumps({'jsonrpc': '2.0', 'method': 'fail_rpc'}),
@@ -702,7 +703,10 @@ def _oracle_half(prop, c, o, half):
             answered = [e for e in elems if e.get('id') is not None]
             docs = responses_of(doc) if doc is not None else []
             if len(docs) != len(answered):
-                return f     # C02's business
+                missing_failure = [e for e in answered if expected_single(c, e)[0] in ('error', 'rpc', 'exc')]
+                if len(docs) < len(answered) and missing_failure and (cls == 'single' or len(missing_failure) == len(answered)):
+                    fail('failure-not-reported', 'a failing call (it carries an id) was not answered: the error does not reach the caller')
+                return f     # which response belongs to which call is C02's business
             execs = [e['m'] for e in o['events'] if e['e'] == 'exec']
             for e, d in zip(answered, docs):
                 kind, det = expected_single(c, e)
